@@ -117,4 +117,30 @@ def constrainAges (ftest fadd : α → α) (fixed : Array Bool) (eps : α) (es :
 
 end Full
 
+section Wrapper
+/-! `util.constrain_ages` (the Python wrapper):
+
+    nodes_fixed = np.bitwise_and(ts.nodes_flags, tskit.NODE_IS_SAMPLE).astype(bool)
+    constrained = _constrain_ages(nodes_time, nodes_fixed, ts.edges_parent, ts.edges_child, eps, iters)
+
+`NODE_IS_SAMPLE = 1`, so a node is fixed iff bit 0 of its flags word is set, whatever the other bits
+are (tsinfer's `NODE_IS_HISTORICAL_SAMPLE = 1 <<< 20`, tsdate's `NODE_SPLIT_BY_PREPROCESS = 1 <<< 30`, …). -/
+
+/-- `bool(flags & NODE_IS_SAMPLE)`. -/
+def isSampleFlag (flags : Nat) : Bool := flags % 2 == 1
+
+/-- The fixed-node vector computed from the node-flags column. -/
+def fixedOfFlags (flags : Array Nat) : Array Bool := flags.map isSampleFlag
+
+variable {α : Type} [Inhabited α] [Add α] [Sub α] [Neg α] [Div α] [OfNat α 0] [OfNat α 2]
+  [LT α] [DecidableLT α] [LE α] [DecidableLE α]
+
+/-- `util.constrain_ages(ts, nodes_time, eps, iters)` with `ts` reduced to its flags column and edge
+table. -/
+def constrainAgesTs (ftest fadd : α → α) (flags : Array Nat) (eps : α) (es : List Edge)
+    (t : Array α) (iters : Nat) : Array α :=
+  constrainAges ftest fadd (fixedOfFlags flags) eps es t iters
+
+end Wrapper
+
 end Tsdate
